@@ -131,6 +131,7 @@ template <class G> int runOne(const std::string &prop, Family fam, bool directed
 
 int main(int argc, char **argv) {
     Args args(argc, argv);
+    (void)clock_();
     installWatchdog(60);
     if (args.has("deadline")) clock_().deadlineS = (double)args.getInt("deadline", 100000);
     std::string prop = args.get("prop", "C01"), config = args.get("config", "");
